@@ -356,7 +356,29 @@ def P24(m, R):
                         acc = norm(s_.targets[0])
                         src_ok = [norm(a) for a in itv.args] == ['start']
                         filt = (g0.ifs[0], norm(g0.target))
+        direct = None
         if acc is None or filt is None:
+            # form 3: the list is the unfiltered result of one ansi_settings_at(..) call
+            cand = [s_ for s_ in blk.body if isinstance(s_, ast.Assign) and isinstance(s_.targets[0], ast.Name) and call_name(s_.value) == 'ansi_settings_at'
+                    and is_name(getattr(s_.value.func, 'value', None), f.self_name) and len(s_.value.args) == 1]
+            if len(cand) == 1:
+                nm = cand[0].targets[0].id
+                others = [x for x in ast.walk(blk) if isinstance(x, (ast.Assign, ast.AugAssign)) and x is not cand[0] and
+                          is_name(x.targets[0] if isinstance(x, ast.Assign) else x.target, nm)]
+                mut = [x for x in ast.walk(blk) if isinstance(x, ast.Call) and isinstance(x.func, ast.Attribute) and is_name(x.func.value, nm) and
+                       x.func.attr in ('remove', 'pop', 'clear', 'append', 'extend', 'insert')] + \
+                    [x for x in ast.walk(blk) if isinstance(x, ast.Delete) and any(nm in names_in(t_) for t_ in x.targets)]
+                restarted = any(isinstance(x, ast.Call) and call_name(x) == 'insert_settings' and len(x.args) >= 2 and is_name(x.args[1], nm) for x in ast.walk(blk))
+                if not others and not mut and restarted:
+                    direct = (cand[0], canon(cand[0].value.args[0], al))
+        if direct is not None and direct[1] in ('start', 'start - 1'):
+            if direct[1] == 'start':
+                why = 'every setting active at start, including the ones that start at this very point: those are stopped and started a second time here'
+            else:
+                why = ('every setting active on the character before start, including the ones that stop at start: those are stopped a second time and started again, '
+                       'so they stay active after their range (and the stop list holds an entry that cannot be removed: the self-check raises)')
+            R.viol(f, direct[0], 'the settings restarted for topmost=False are %s, unfiltered -- %s' % (short(direct[0].value), why), construct=cons)
+        elif acc is None or filt is None:
             R.undecided(f, blk, 'restart accumulation not recognised', construct=cons)
         else:
             if not src_ok:
